@@ -578,7 +578,8 @@ class BaseParser:
         as_attname: bool = False,
         excluded_keys: List[str] = None,
     ):
-        if self.case_insensitive_names:
+        if self.case_insensitive_names or any(not isinstance(k, str) for k in data):
+            # (keys are looked up, and kept, as strings: as data_first_parse does)
             _data = {}
             for k, v in data.items():
                 k = str(k)
